@@ -142,16 +142,11 @@ class CorralLearner(Learner):
                     r = x
 
         def find_root_of_1():
-            brackets = list(sorted(filter(lambda z: min_loss <= z and z <= max_loss, set(denom_zeros + [min_loss, max_loss]))))
-
-            for l_brack, r_brack in zip(brackets[:-1], brackets[1:]):
-
-                if (f(l_brack+.00001)-1) * (f(r_brack-.00001)-1) >= 0:
-                    continue
-                else:
-                    # we use binary search because newtons
-                    # method can overshoot our objective
-                    return binary_search(l_brack, r_brack)
+            # All the new weights have to be positive so the root we want is below the smallest pole of f.
+            # On [min_loss, smallest pole) f is continuous and increasing, f(min_loss) <= sum(ps) and f is >= sum(ps)
+            # at max_loss (or unbounded at the pole) so this is the one bracket that always holds the root.
+            # We use binary search because newtons method can overshoot our objective.
+            return binary_search(min_loss, min([max_loss] + denom_zeros))
 
         if min_loss == max_loss:
             lmbda = min_loss
